@@ -29,6 +29,8 @@ pub fn foreign_handles(ctx: &mut Ctx, own: &Ontology, other: &Ontology, f: &Fact
             _ => Some("the result cannot be walked".to_string()),
         },
         (Ok(Err(_)), Ok(Err(_))) => None,
+        // refusing handles of another instance is a legitimate policy; a DIFFERENT ontology is not
+        (Ok(Ok(_)), Ok(Err(_))) | (Ok(Ok(_)), Err(_)) => None,
         _ => Some(format!("own handles: {:?}; foreign handles: {:?}", a.as_ref().map(|r| r.as_ref().map(|_| ())), b.as_ref().map(|r| r.as_ref().map(|_| ())))),
     };
     if let Some(d) = same {
@@ -165,7 +167,7 @@ pub fn check_one(ctx: &mut Ctx, src: &Ontology, r: &RefOnt, mode: Mode, up: &BTr
 
 fn large(ctx: &mut Ctx) {
     let family = crate::props::common::large_family();
-    ctx.space("large-structured/roots-x-leaves", &format!("{} large shapes (records on the last terms, the middle and the top) x roots {{HP:1, HP:118, middle}} x leaf collections {{last}}, {{last, middle}}, {{last two}}, {{every 9th term}}, {{last, last}}", family.len()));
+    ctx.space("large-structured/roots-x-leaves", &format!("{} large shapes (records on the last terms, the middle and the top; gene 7 / OMIM 7 on every 2nd term, ORPHA 7 on the last; without and with custom modifier roots (3rd term; 3rd term + middle)) x roots {{HP:1, HP:118, middle}} x leaf collections {{last}}, {{last, middle}}, {{last two}}, {{every 9th term}}, {{last, last}}", family.len()));
     for (base, what) in &family {
         if !ctx.take() {
             continue;
@@ -181,10 +183,17 @@ fn large(ctx: &mut Ctx) {
         f.anns.push(Facts::ann(crate::model::Kind::Omim, 600_001, "Disease one", Some(ids[n - 2])));
         f.anns.push(Facts::ann(crate::model::Kind::Orpha, 77, "Orpha one", Some(ids[n / 2])));
         f.anns.push(Facts::ann(crate::model::Kind::Orpha, 78, "Orpha two", Some(ids[1])));
+        // records with very many direct terms (every 2nd term), a strict non-contiguous part of which is retained;
+        // the same numeric id in all three kinds
+        for i in (0..n).step_by(2) {
+            f.anns.push(Facts::ann(crate::model::Kind::Gene, 7, "SEVEN", Some(ids[i])));
+            f.anns.push(Facts::ann(crate::model::Kind::Omim, 7, "Seven (omim)", Some(ids[i])));
+        }
+        f.anns.push(Facts::ann(crate::model::Kind::Orpha, 7, "Seven (orpha)", Some(ids[n - 1])));
         let r = RefOnt::derive(&f);
         let up: BTreeMap<u32, BTreeMap<u32, usize>> = ids.iter().map(|i| (*i, r.up_distances(*i))).collect();
         ctx.transitions(f.n_steps());
-        let Ok(src) = drive::build(&f, Mode::Minimal) else {
+        let Ok(mut src) = drive::build(&f, Mode::Minimal) else {
             ctx.violation("Builder", "construction fails on valid facts", json!({"shape": what}));
             continue;
         };
@@ -195,6 +204,21 @@ fn large(ctx: &mut Ctx) {
             for leaves in &collections {
                 let case = || json!({"shape": what, "n_terms": n, "root": root, "leaves": leaves});
                 check_one(ctx, &src, &r, Mode::Minimal, &up, root, leaves, &case, None);
+            }
+        }
+        // the same with custom modifier roots installed: the third term (everything below it is a modifier term
+        // with up to hundreds of ancestors), then additionally the middle term
+        for roots in [vec![ids[2]], vec![ids[2], mid]] {
+            *src.modifier_mut() = hpo::term::HpoGroup::new();
+            for x in &roots {
+                src.modifier_mut().insert(*x);
+            }
+            let rs: BTreeSet<u32> = roots.iter().copied().collect();
+            for root in [ids[0], ids[1]] {
+                for leaves in &collections {
+                    let case = || json!({"shape": what, "n_terms": n, "root": root, "leaves": leaves, "custom_modifier_roots": roots});
+                    check_one(ctx, &src, &r, Mode::Minimal, &up, root, leaves, &case, Some(&rs));
+                }
             }
         }
         ctx.sample(|| json!({"shape": what, "n_terms": n}));
@@ -318,15 +342,25 @@ pub fn run(ctx: &mut Ctx) {
                 }
             }
         }
-        // custom modifier roots installed through the public modifier_mut(): each free term in turn
+        // custom modifier roots installed through the public modifier_mut(): each free term in turn, and each pair
         if !has_flag && n <= 5 {
-            for &custom in ids.iter().filter(|i| **i != 1 && **i != 118) {
+            let free: Vec<u32> = ids.iter().copied().filter(|i| *i != 1 && *i != 118).collect();
+            let mut root_sets: Vec<Vec<u32>> = free.iter().map(|x| vec![*x]).collect();
+            for a in 0..free.len() {
+                for b in a + 1..free.len() {
+                    root_sets.push(vec![free[a], free[b]]);
+                }
+            }
+            for custom_set in root_sets {
+                let custom = custom_set[0];
                 if let Ok(mut o) = drive::build(f, Mode::Minimal) {
-                    o.modifier_mut().insert(custom);
-                    let roots: BTreeSet<u32> = [custom].into_iter().collect();
+                    for x in &custom_set {
+                        o.modifier_mut().insert(*x);
+                    }
+                    let roots: BTreeSet<u32> = custom_set.iter().copied().collect();
                     for &root in &ids {
                         for leaves in collections.iter().filter(|l| l.len() <= 2) {
-                            let case = || json!({"family": what, "source": f.to_json(), "source_constructor": "Builder::build_minimal + modifier_mut()", "custom_modifier_roots": [custom], "root": root, "leaves": leaves});
+                            let case = || json!({"family": what, "source": f.to_json(), "source_constructor": "Builder::build_minimal + modifier_mut()", "custom_modifier_roots": custom_set, "first": custom, "root": root, "leaves": leaves});
                             check_one(ctx, &o, &r, Mode::Minimal, &up, root, leaves, &case, Some(&roots));
                         }
                     }
